@@ -3,6 +3,8 @@
 P=$1; PATCH=$2
 cd /repo && git apply --check "$PATCH" || { echo "patch does not apply"; exit 2; }
 git apply "$PATCH"
+cp /verif/evidence/$P.json /tmp/evidence_$P.json.keep 2>/dev/null
 cd /verif && timeout 3000 ./check $P 2>/dev/null | grep -E "^(OK|VIOLATION|KNOWN)" | cut -c1-220
+cp /tmp/evidence_$P.json.keep /verif/evidence/$P.json 2>/dev/null
 cd /repo && git checkout -- . && git clean -fdq sim >/dev/null 2>&1
 git -C /repo status --short | head -3
